@@ -94,7 +94,11 @@ pub fn main(args: &[String]) {
     for i in 0..ngen {
         let base = rng.pick(&corp); let lib = base.kind == "lib";
         let atoms = if lib { gen::LIB_ATOMS } else { gen::SV_ATOMS };
-        let (t, tag) = match i % 5 {
+        let (t, tag) = match i % 6 {
+            // a `begin_keywords region still open at the end of the text: the preprocessor's own parse leaves the version stack non-empty,
+            // so an entry point that does not reset it parses the first description under the wrong keyword set
+            5 if !lib => (format!("{}\n`begin_keywords \"{}\"\nmodule zz_open; reg y; endmodule\n", base.text, rng.pick_str(&["1364-2001", "1364-1995", "1800-2005"])), "open-keywords-region-at-eof"),
+            5 => (format!("{}\n`begin_keywords \"1364-1995\"\n", base.text), "open-keywords-region-at-eof"),
             // every optional slot of the two root productions filled: the compilation unit starts with a timeunits declaration
             4 if !lib => (format!("{}{}", rng.pick_str(&["timeunit 1ns;\n", "timeunit 1ns / 1ps;\n", "timeprecision 1ps;\n", "// h\ntimeunit 1ns;\ntimeprecision 1ps;\n", "timeprecision 1ps;\ntimeunit 1ns;\n"]), base.text), "timeunits-first"),
             4 => (format!("{}\n{}", base.text, rng.pick(&corp).text), "good+good"),
